@@ -163,14 +163,41 @@ class AtomicAnalysis:
         self.cand = {}               # candidate violations: ident -> (loc, msg, bid, st, names)
         self.V = set()
 
+    def count_guarded(self):
+        """blocks that run only behind a condition that mentions a count of the problem (nrows / ncols / nstruct)"""
+        if getattr(self, "_cg", None) is None:
+            from ..core import dominators
+            f = self.f
+            dom, succ = dominators(self.prog, f)
+            heads = set()
+            for bid in f.live:
+                c = f.blocks[bid].get("c")
+                if c is None:
+                    continue
+                if any(isinstance(nd, list) and nd and nd[0] == "m" and nd[2].split("::")[1] in ("nrows", "ncols", "nstruct") for nd in walk(c)):
+                    for s_ in self.prog.live_succs(f, f.blocks[bid]):
+                        if s_ is not None:
+                            heads.add(s_)
+            # a successor counts when the condition block is its only way in
+            preds = {}
+            for a_, ss in succ.items():
+                for x in ss:
+                    preds.setdefault(x, set()).add(a_)
+            heads = {h for h in heads if len(preds.get(h, ())) == 1}
+            self._cg = {bid for bid in f.live if bid in heads or any(h in dom.get(bid, ()) for h in heads)}
+        return self._cg
+
     def xfer(self, b, i, e, st):
         rv, tmp, wr, inbr = st[:4]
         rej = st[4]
         key = (b["id"], i)
         k = e[0]
         if key in self.mut and rej and any(n in rej for n in HALF_APPLIED) and ("free_cache" in self.mut[key][1] or "cached solution" in self.mut[key][1]
-                                                                                or "status" in self.mut[key][1]):
-            pass        # the batch routine has already changed the problem (known findings): dropping the cache behind it is required (R-INVALPART)
+                                                                                or "status" in self.mut[key][1]) and b["id"] in self.count_guarded():
+            # the batch routine has changed the problem (known findings) - the invalidation sits behind a test of a count of the problem, so it
+            # runs only when part of the batch went in: dropping the cache there is required (R-INVALPART), behind a batch rejected as a
+            # whole it would be a state change of a rejected call
+            pass
         elif key in self.mut and rej:
             self.cand.setdefault(("late", key), (e[2], "%s is written after the arguments were already rejected (%s), before the function returns the error" % (
                 self.mut[key][1], rej), b["id"], st, frozenset()))
